@@ -3,6 +3,7 @@
 package main
 
 import (
+	"regexp"
 	"bytes"
 	"crypto/sha256"
 	"fmt"
@@ -334,6 +335,9 @@ func closureCheck(m *ir.Module) string {
 			c.fail("func %s: wrong parent module", f.Ident())
 		}
 		locals := localsOf(f)
+		// what was visited while walking another function is visited again: an object SHARED by two functions (a memoised `!DIArgList(i32 %x)`) holds
+		// locals of at most one of them
+		c.seen = map[uintptr]bool{}
 		for _, b := range f.Blocks {
 			if b.Parent != f {
 				c.fail("block %s of %s: wrong parent", b.Ident(), f.Ident())
@@ -552,6 +556,89 @@ func init() {
 	})
 	// C01: nothing the input said is dropped or altered: after parse+print the given fragments are still there
 	// (a[0] = fragments joined by \x1f, hex; a[1] = text), and the output is stable
+	// mod.deforder T:<hex>,.. C:<hex>,.. N:<hex>,.. A:<id>,.. M:<id>,..  ("-" = none): a module with these type definitions, comdats, named metadata, attribute
+	// groups and metadata definitions WRITTEN IN THIS ORDER is parsed and printed; the answer is the order of the definitions in the printed text
+	reg("mod.deforder", func(a []string) string {
+		raw := regexp.MustCompile(`^[-a-zA-Z$._][-a-zA-Z$._0-9]*$`)
+		num := regexp.MustCompile(`^[0-9]+$`)
+		spell := func(n string, numOK bool) string {
+			if raw.MatchString(n) || (numOK && num.MatchString(n)) {
+				return n
+			}
+			return `"` + n + `"`
+		}
+		groups := map[string][]string{}
+		for _, g := range a {
+			k, v, _ := strings.Cut(g, ":")
+			if v == "-" || v == "" {
+				continue
+			}
+			for _, x := range strings.Split(v, ",") {
+				if k == "A" || k == "M" {
+					groups[k] = append(groups[k], x)
+				} else {
+					groups[k] = append(groups[k], string(unhexArg(x)))
+				}
+			}
+		}
+		var sb strings.Builder
+		for _, n := range groups["T"] {
+			fmt.Fprintf(&sb, "%%%s = type { i8 }\n", spell(n, true))
+		}
+		for _, n := range groups["C"] {
+			fmt.Fprintf(&sb, "$%s = comdat any\n", spell(n, false))
+		}
+		for i, n := range groups["T"] {
+			fmt.Fprintf(&sb, "@g%d = global %%%s zeroinitializer\n", i, spell(n, true))
+		}
+		for i, n := range groups["C"] {
+			fmt.Fprintf(&sb, "@c%d = global i8 0, comdat($%s)\n", i, spell(n, false))
+		}
+		for i, n := range groups["A"] {
+			fmt.Fprintf(&sb, "declare void @f%d() #%s\n", i, n)
+		}
+		for _, n := range groups["A"] {
+			fmt.Fprintf(&sb, "attributes #%s = { \"k%s\" }\n", n, n)
+		}
+		for _, n := range groups["N"] {
+			fmt.Fprintf(&sb, "!%s = !{}\n", n)
+		}
+		for _, n := range groups["M"] {
+			fmt.Fprintf(&sb, "!%s = !{i32 %s}\n", n, n)
+		}
+		m, err := asm.ParseString("x.ll", sb.String())
+		if err != nil {
+			return "error"
+		}
+		unq := func(n string) string { return strings.TrimSuffix(strings.TrimPrefix(n, `"`), `"`) }
+		got := map[string][]string{}
+		for _, l := range strings.Split(m.String(), "\n") {
+			switch {
+			case strings.HasPrefix(l, "%") && strings.Contains(l, " = type "):
+				got["T"] = append(got["T"], hexOut([]byte(unq(l[1:strings.Index(l, " = type ")]))))
+			case strings.HasPrefix(l, "$") && strings.Contains(l, " = comdat "):
+				got["C"] = append(got["C"], hexOut([]byte(unq(l[1:strings.Index(l, " = comdat ")]))))
+			case strings.HasPrefix(l, "attributes #"):
+				got["A"] = append(got["A"], l[len("attributes #"):strings.Index(l, " = ")])
+			case strings.HasPrefix(l, "!") && strings.Contains(l, " = "):
+				n := l[1:strings.Index(l, " = ")]
+				if num.MatchString(n) {
+					got["M"] = append(got["M"], n)
+				} else {
+					got["N"] = append(got["N"], hexOut([]byte(n)))
+				}
+			}
+		}
+		var out []string
+		for _, k := range []string{"T", "C", "N", "A", "M"} {
+			v := "-"
+			if len(got[k]) > 0 {
+				v = strings.Join(got[k], ",")
+			}
+			out = append(out, k+":"+v)
+		}
+		return strings.Join(out, " ")
+	})
 	reg("mod.keeps", func(a []string) string {
 		text := string(unhexArg(a[1]))
 		m, o := parseOutcome(text)
